@@ -11,6 +11,7 @@ pub fn dispatch(cmd: &str, a: &Args) -> bool {
         return true;
     }
     match cmd {
+        "show" => show(a),
         "c01" => c01(a),
         "c02" => c02(a),
         "pipeline-replay" => pipeline_replay(a),
@@ -232,4 +233,22 @@ fn c01(a: &Args) {
     }
     w.flush().unwrap();
     println!("{}", json!({"runs": runs, "inputs": pool.len(), "bad": bad, "lengths": lens.len(), "worst_ratio": worst.0, "worst_text": worst.1}));
+}
+
+/// Debug helper: print the events the real parser delivers for --text (or each line of --file).
+fn show(a: &Args) {
+    let texts: Vec<String> = if let Some(t) = a.get("text") { vec![t.replace("\\n", "\n").replace("\\t", "\t")] } else { std::fs::read_to_string(a.req("file")).unwrap().lines().map(|l| serde_json::from_str::<String>(l).unwrap()).collect() };
+    for t in texts {
+        let r = run_str(&t);
+        println!("{:?}", t);
+        for e in &r.evs {
+            println!("   {} {:?} {} &{} {:?} {:?}-{:?}", e.k, e.v, e.style, e.aid, e.tag, e.a, e.b);
+        }
+        if let Some(e) = &r.err {
+            println!("   ERROR {} at {:?}", e.msg, e.at);
+        }
+        if let Some(p) = &r.panic {
+            println!("   PANIC {p}");
+        }
+    }
 }
